@@ -153,6 +153,7 @@ class Network(Module):
             parents_in_level=parents_in_level,
             root_inds=self._cumsum_nbranches[:-1],
             remapped_node_indices=remapped_node_indices,
+            ncomp_per_branch=self.ncomp_per_branch,
         )
 
     def _init_morph_jax_spsolve(self):
